@@ -28,6 +28,13 @@ def verify_function(run, relfile, qual, make_contract, timeout_ms=10000, engine_
     except RecursionError as e:
         run.downgrades.append({"function": fq, "reason": "engine recursion limit"})
         return "unsupported", [], None
+    except (KeyError, AttributeError, IndexError, TypeError, z3.Z3Exception) as e:
+        # the sidecar (names of locals, shapes of values, anchors) no longer matches the code: nothing is known about this function
+        tb = traceback.extract_tb(e.__traceback__)
+        where = "%s:%d" % (tb[-1].filename.split("/")[-1], tb[-1].lineno) if tb else "?"
+        run.downgrades.append({"function": fq, "reason": "sidecar does not match the code any more (%s: %s at %s)" % (type(e).__name__, str(e)[:160], where)})
+        run.notes.append("UNSUPPORTED %s: sidecar mismatch %s: %s (bounded stand-in decides)" % (fq, type(e).__name__, str(e)[:200]))
+        return "unsupported", [], None
     run.add_function(fq, relfile, dropped=eng.dropped, note=note)
     # identical (pc, goal) pairs reached on several paths are solved once
     failed = []
@@ -88,7 +95,7 @@ def canary(run, relfile, qual, make_contract, engine_setup=None):
         # the original ensures still runs (it may add lemma instances as axioms: their consistency is what the canary tests)
         c.ensures = lambda S, a, r: ((orig_ens(S, a, r) if orig_ens else None), [("canary: False", z3.BoolVal(False))])[1]
         obs = eng.verify(qual, c)
-    except Unsupported:
+    except (Unsupported, KeyError, AttributeError, IndexError, TypeError, z3.Z3Exception, RecursionError):
         return None
     ens = [o for o in obs if o.kind == "ensures"]
     if not ens:
